@@ -246,6 +246,15 @@ def rewrite_map_closure(s):
     # Result::map_err with a closure -> its definition as a match
     s = _rewrite_closure_call(s, 'map_err', lambda recv, pat, body: '(match %s { Ok(v__) => Ok(v__), Err(%s) => Err(%s) })' % (recv, pat, body))
     s = _rewrite_map_or(s)
+    # and_then with a closure: Result or Option is decided from the closure body (Ok/Err/map_err/ok_or -> Result,
+    # Some/None -> Option); if neither is evident the call is left alone (front-end error => undecided)
+    def _and_then(recv, pat, body):
+        if re.search(r'\b(Ok|Err)\s*\(|\.map_err\(|\.ok_or\(|try_from\(|try_into\(', body):
+            return '(match %s { Ok(%s) => %s, Err(e__) => Err(e__) })' % (recv, pat, body)
+        if re.search(r'\bSome\s*\(|\bNone\b|\.checked_\w+\(|\.ok\(\)', body):
+            return '(match %s { Some(%s) => %s, None => None })' % (recv, pat, body)
+        raise AnchorLost('R13: and_then closure of unknown carrier type')
+    s = _rewrite_closure_call(s, 'and_then', _and_then)
     return s
 
 
